@@ -12,9 +12,10 @@ import (
 	"sort"
 	"strings"
 
-	"github.com/google/wuffs/internal/cgen"
+	cgen "github.com/google/wuffs/lang/verifc05"
 	"github.com/google/wuffs/lang/check"
 	"github.com/google/wuffs/lang/generate"
+	"github.com/google/wuffs/lang/parse"
 
 	a "github.com/google/wuffs/lang/ast"
 	t "github.com/google/wuffs/lang/token"
@@ -64,7 +65,7 @@ func intsStr(v []int) string {
 }
 
 // liveOps emits one `live` op per coroutine and evaluates the reference oracle.
-func liveOps(r *hlib.Run, where string, fs []cgen.VerifLiveFunc) {
+func liveOps(r *hlib.Run, where string, fs []cgen.LiveFunc) {
 	for _, f := range fs {
 		if f.Err != "" {
 			r.Count("live:hook-error")
@@ -99,11 +100,91 @@ func liveOps(r *hlib.Run, where string, fs []cgen.VerifLiveFunc) {
 	}
 }
 
-func liveStd(r *hlib.Run, scratchRepo string) {
-	resolve := func(usePath string) ([]byte, error) {
-		return os.ReadFile(filepath.Join(scratchRepo, "gen", "wuffs", filepath.FromSlash(usePath)))
+// useSummary replicates cmd/wuffs genWuffs (the text `wuffs gen` writes to
+// gen/wuffs/<path>.wuffs, which lang/generate's resolveUse reads): the public
+// declarations of a package, without bodies.
+func useSummary(repo string, usePath string) ([]byte, error) {
+	dir := filepath.Join(repo, filepath.FromSlash(strings.TrimSuffix(usePath, ".wuffs")))
+	fs, _ := filepath.Glob(filepath.Join(dir, "*.wuffs"))
+	sort.Strings(fs)
+	if len(fs) == 0 {
+		return nil, fmt.Errorf("no such package %q", usePath)
 	}
-	pk, names := stdPackages(scratchRepo)
+	tm := &t.Map{}
+	files, err := generate.ParseFiles(tm, fs, &parse.Options{AllowDoubleUnderscoreNames: true})
+	if err != nil {
+		return nil, err
+	}
+	out := &strings.Builder{}
+	for _, f := range files {
+		for _, n := range f.TopLevelDecls() {
+			switch n.Kind() {
+			case a.KConst:
+				n := n.AsConst()
+				if n.Public() {
+					fmt.Fprintf(out, "pub const %s : %s = %v\n", n.QID().Str(tm), n.XType().Str(tm), n.Value().Str(tm))
+				}
+			case a.KFunc:
+				n := n.AsFunc()
+				if !n.Public() {
+					continue
+				}
+				fmt.Fprintf(out, "pub func %s.%s%v(", n.Receiver().Str(tm), n.FuncName().Str(tm), n.Effect())
+				for i, field := range n.In().Fields() {
+					field := field.AsField()
+					if i > 0 {
+						fmt.Fprintf(out, ", ")
+					}
+					fmt.Fprintf(out, "%s: %s", field.Name().Str(tm), field.XType().Str(tm))
+				}
+				fmt.Fprintf(out, ") ")
+				if o := n.Out(); o != nil {
+					fmt.Fprintf(out, "%s ", o.Str(tm))
+				}
+				fmt.Fprintf(out, "{ }\n")
+			case a.KStatus:
+				n := n.AsStatus()
+				if n.Public() {
+					fmt.Fprintf(out, "pub status %s\n", n.QID().Str(tm))
+				}
+			case a.KStruct:
+				n := n.AsStruct()
+				if !n.Public() {
+					continue
+				}
+				fmt.Fprintf(out, "pub struct %s", n.QID().Str(tm))
+				if n.Classy() {
+					fmt.Fprintf(out, "?")
+				}
+				if imps := n.Implements(); len(imps) > 0 {
+					fmt.Fprintf(out, " implements ")
+					for i, imp := range imps {
+						if i > 0 {
+							fmt.Fprintf(out, ", ")
+						}
+						fmt.Fprintf(out, "%s", imp.AsTypeExpr().Str(tm))
+					}
+				}
+				fmt.Fprintf(out, "()\n")
+			}
+		}
+	}
+	return []byte(out.String()), nil
+}
+
+func liveStd(r *hlib.Run, repo string) {
+	cache := map[string][]byte{}
+	resolve := func(usePath string) ([]byte, error) {
+		if b, ok := cache[usePath]; ok {
+			return b, nil
+		}
+		b, err := useSummary(repo, usePath)
+		if err == nil {
+			cache[usePath] = b
+		}
+		return b, err
+	}
+	pk, names := stdPackages(repo)
 	for _, name := range names {
 		tm, files, err := loadPkg(pk[name], resolve)
 		if err != nil {
@@ -112,7 +193,7 @@ func liveStd(r *hlib.Run, scratchRepo string) {
 			continue
 		}
 		r.Count("live:std-packages")
-		liveOps(r, "std/"+name, cgen.VerifLiveness(tm, files))
+		liveOps(r, "std/"+name, cgen.Liveness(tm, files))
 	}
 }
 
@@ -129,6 +210,6 @@ func liveGenerated(r *hlib.Run, dir string, rng *hlib.Rand, nPkgs, nPub, nSub, s
 			continue
 		}
 		r.Count("live:gen-packages")
-		liveOps(r, fmt.Sprintf("gen%d", k), cgen.VerifLiveness(tm, files))
+		liveOps(r, fmt.Sprintf("gen%d", k), cgen.Liveness(tm, files))
 	}
 }
